@@ -1,11 +1,15 @@
-import NanoVerif.Proofs.LSearchGet
+import NanoVerif.Proofs.LSearchQuadCG
+import NanoVerif.Proofs.LSearchQuadLem
+import NanoVerif.Proofs.LSearchQuadFl
+import NanoVerif.Proofs.LSearchQuadMT
 /-!
   C07 — line-search steps honour the acceptance conditions they advertise: the property theorems.
 
   Setting (see `Model/LSearch.lean`): `get m cfg φ s0 t0` is the model of `lsearchk_t::get(state, descent, t0)` for the
   method `m`; `s0 = (f(x0), ∇f(x0)·d, valid)` is the state on entry; the line function is the oracle `φ k t` (answer to the
   `k`-th request, made at step `t`); `cfg` carries `(c1, c2)`, `max_iterations`, the per-method parameters, the numeric
-  constants, `std::isfinite` and the interpolation formulas. Every theorem below holds
+  constants, `std::isfinite` and the interpolation formulas. Every theorem below except those of the last section (convex
+  quadratics, where the oracle is the quadratic line function) holds
 
     for every ordered field `α`, every oracle `φ` (even one that answers inconsistently), every interpolation function,
     every `isfinite`, every `(c1, c2)` (the conditions `0 < c1 < c2 < 1` are not even needed), every `t0`,
@@ -13,10 +17,16 @@ import NanoVerif.Proofs.LSearchGet
   and the acceptance conditions are the definitions GENERATED from the C++ text (`Gen/LsPredicates.lean`).
   `0 < max_iterations` is the parameter's domain `[1, 10000]`.
 
+  Moré–Thuente (since the repair 3b214f8 of /repo) reports success only from its convergence test:
+  `morethuente_success_conditions` is success ⇒ Armijo ∧ strong Wolfe. CG_DESCENT reports success also from its "bracketing
+  failed" exit, on which NO acceptance condition was tested; the exact disjunction is `cgdescent_success_cases`, with a
+  kernel-checked model run over ℚ (`cgdescent_bracket_failed_reachable`). The runs that exhibited the old Moré–Thuente rule
+  (five `return {true, stp}`) are kept in the section "pre-3b214f8", next to the same runs under the present rule (they fail).
+
   What is NOT proved here (tested by the oracle of tools/props/c07.py only): finiteness of the step (meaningless over a
-  field), success on convex quadratics, positivity of the step for Moré–Thuente (false in the model for an arbitrary
-  interpolation function: only `0 ≤ t` is proved, `morethuente_success_step_positive_partial`, and a model witness with
-  `t = 0` is given, `morethuente_step_zero_reachable`) and for CG_DESCENT.
+  field). Positivity of the step for Moré–Thuente and CG_DESCENT needs an oracle that answers the slope of the origin when
+  asked at step `0` (both searches can evaluate at `0`); `0 ≤ t` holds for every oracle. Success on convex quadratics: the last
+  section (exact arithmetic; what is proved and what is `_partial`).
 -/
 namespace NanoVerif.LSearch
 open NanoVerif.Gen.LsPredicates
@@ -130,41 +140,663 @@ theorem evalsBound_default :
     evalsBound .backtrack 128 = 384 ∧ evalsBound .lemarechal 128 = 383 ∧ evalsBound .fletcher 128 = 511 ∧
     evalsBound .morethuente 128 = 384 ∧ evalsBound .cgdescent 128 = 1153 := by decide
 
-/-! ### Moré–Thuente: positivity is only partial
-
-  Full statement (NOT proved, and false in the model when the interpolation function is arbitrary):
-    `(get .morethuente cfg φ s0 t0).ok = true → 0 < (get .morethuente cfg φ s0 t0).t`.
-  Proved: `0 ≤ t` (`morethuente_success_step_positive_partial`).
-  Missing case `t = 0`: after a bracketing step (`f(stp) > f(stx)`, `stx = 0`) whose interpolated step falls outside
-  `(stmin, stmax)` the code sets `stp = stx = 0` (morethuente.cpp:266-269), evaluates at `t = 0` and returns `{true, 0}`
-  from the "no further progress" exit in the next iteration. `morethuente_step_zero_reachable` exhibits this in the model
-  over ℚ with a cubic-interpolation function that answers `10`; with the real cubic formula the interpolated step lies
-  strictly inside the bracket in exact arithmetic, and the oracle of tools/props/c07.py never observed `t ≤ 0` on the
-  implementation. -/
-
-/-- Moré–Thuente never accepts a negative step (every trial step is `stx`, which is `0` or an earlier trial step, or a
-    value clamped to `[stpmin(), stpmax()]`). -/
-theorem morethuente_success_step_positive_partial (cfg : Cfg α) (φ : Oracle α) (s0 : Eval α) (t0 : α)
-    (he : 0 < cfg.macheps) (h : (get .morethuente cfg φ s0 t0).ok = true) : 0 ≤ (get .morethuente cfg φ s0 t0).t := by
-  refine get_step_prop (fun x => 0 ≤ x) .morethuente cfg φ s0 t0 he ?_ h
-  intro t ctx ht _
-  exact morethuente_nonneg cfg φ s0 he _ (morethuenteInit cfg s0 t) ctx (by simp [morethuenteInit])
-    (by simpa [morethuenteInit] using le_of_lt ht)
-
 def witnessCfg : Cfg ℚ :=
   { c1 := 1 / 10000, c2 := 1 / 10, maxIter := 128, fin := fun _ => true, interp := fun u v => (u.t + v.t) / 2,
     cubic := fun _ _ => 10, eps0 := 1 / 10 ^ 15, eps1 := 1 / 10 ^ 10, macheps := 1 / 1000, safeguard := 1 / 10, tau1 := 9,
     tau2 := 1 / 10, tau3 := 1 / 2, delta := 66 / 100, cgEpsilon := 1 / 10 ^ 6, cgTheta := 1 / 2, cgGamma := 66 / 100,
     cgRo := 5 }
 
-/-- `φ(t) = t²`-like line function: value `t·t - t`… only three points matter: `φ(0) = (0, -1)`, `φ(1) = (1, 1)` -/
-def witnessPsi (t : ℚ) : Eval ℚ := if t = 0 then ⟨0, -1, true⟩ else ⟨1, 1, true⟩
+/-! ### Moré–Thuente: success ⇒ Armijo and strong Wolfe (the only `return {true, stp}` is the convergence test) -/
 
-/-- Moré–Thuente reports success with `t = 0` in the model (arbitrary cubic interpolation): positivity of the accepted
-    step cannot be proved for it without a contract on the interpolation. -/
-theorem morethuente_step_zero_reachable :
-    (get .morethuente witnessCfg (fun _ => witnessPsi) ⟨0, -1, true⟩ 1).ok = true ∧
-    (get .morethuente witnessCfg (fun _ => witnessPsi) ⟨0, -1, true⟩ 1).t = 0 := by
+/-- For every oracle, interpolation, `isfinite`, `(c1, c2)`, `t0`: a success of Moré–Thuente satisfies Armijo and strong Wolfe
+    (generated predicates) on the returned state and step. -/
+theorem morethuente_success_conditions (cfg : Cfg α) (φ : Oracle α) (s0 : Eval α) (t0 : α) (hM : 0 < cfg.maxIter)
+    (h : (get .morethuente cfg φ s0 t0).ok = true) :
+    hasArmijo s0.f s0.g (get .morethuente cfg φ s0 t0).ctx.cur.f (get .morethuente cfg φ s0 t0).t cfg.c1 = true ∧
+    hasStrongWolfe s0.g (get .morethuente cfg φ s0 t0).ctx.cur.g cfg.c2 = true :=
+  ((get_spec .morethuente cfg φ s0 t0 hM).2 h).1
+
+/-- Moré–Thuente never accepts a negative step, whatever the oracle answers (every trial step is `stx`, which is `0` or an
+    earlier trial step, or a value clamped to `[stpmin(), stpmax()]`). -/
+theorem morethuente_success_step_nonneg (cfg : Cfg α) (φ : Oracle α) (s0 : Eval α) (t0 : α)
+    (he : 0 < cfg.macheps) (h : (get .morethuente cfg φ s0 t0).ok = true) : 0 ≤ (get .morethuente cfg φ s0 t0).t := by
+  refine get_step_prop (fun x => 0 ≤ x) .morethuente cfg φ s0 t0 he ?_ h
+  intro t ctx ht _
+  exact morethuente_nonneg cfg φ s0 he _ (morethuenteInit cfg s0 t) ctx (by simp [morethuenteInit])
+    (by simpa [morethuenteInit] using le_of_lt ht)
+
+/-- The step accepted by Moré–Thuente is strictly positive for every oracle that answers the slope of the origin whenever it
+    is asked at step `0` (`(φ k 0).g = g0`; in particular for every line function with `ψ 0 = s0`), `c2 < 1`: the fallback
+    `stp = stx` (morethuente.cpp:267-270) can make the search evaluate at `0`, but strong Wolfe fails there. -/
+theorem morethuente_success_step_positive (cfg : Cfg α) (φ : Oracle α) (s0 : Eval α) (t0 : α) (he : 0 < cfg.macheps)
+    (hc2 : cfg.c2 < 1) (hM : 0 < cfg.maxIter) (hφ : ∀ k, (φ k 0).g = s0.g)
+    (h : (get .morethuente cfg φ s0 t0).ok = true) : 0 < (get .morethuente cfg φ s0 t0).t := by
+  rcases lt_or_eq_of_le (morethuente_success_step_nonneg cfg φ s0 t0 he h) with h0 | h0
+  · exact h0
+  · exfalso
+    obtain ⟨rest, _, hcur⟩ := success_state_is_last_answer .morethuente cfg φ s0 t0 hM h
+    obtain ⟨_, _, _, _, hg, _⟩ := get_eq_doGet .morethuente cfg φ s0 t0 hM h
+    have hS := (morethuente_success_conditions cfg φ s0 t0 hM h).2
+    rw [hcur, ← h0, hφ] at hS
+    simp only [hasStrongWolfe, decide_eq_true_eq, absv_eq_abs, abs_of_neg hg] at hS
+    nlinarith
+
+/-- `φ(0) = (0, -1)`, elsewhere `(1, 1)`; the second one answers `(-1, 0)` at step `0`, inconsistently with the origin -/
+def witnessPsi (t : ℚ) : Eval ℚ := if t = 0 then ⟨0, -1, true⟩ else ⟨1, 1, true⟩
+def witnessPsiInconsistent (t : ℚ) : Eval ℚ := if t = 0 then ⟨-1, 0, true⟩ else ⟨1, 1, true⟩
+
+/-- With an interpolation that answers outside the bracket (`cubic := 10`) the fallback `stp = stx = 0` makes Moré–Thuente
+    evaluate at step `0`; the consistent oracle is then refused (failure, `t = 0`), and an oracle that does NOT answer the
+    slope of the origin at step `0` gets the step `0` accepted: the consistency hypothesis of
+    `morethuente_success_step_positive` cannot be dropped. -/
+theorem morethuente_zero_step_accepted_if_inconsistent :
+    (get .morethuente witnessCfg (fun _ => witnessPsi) ⟨0, -1, true⟩ 1).ok = false ∧
+    (get .morethuente witnessCfg (fun _ => witnessPsi) ⟨0, -1, true⟩ 1).t = 0 ∧
+    (get .morethuente witnessCfg (fun _ => witnessPsiInconsistent) ⟨0, -1, true⟩ 1).ok = true ∧
+    (get .morethuente witnessCfg (fun _ => witnessPsiInconsistent) ⟨0, -1, true⟩ 1).t = 0 := by
+  decide +kernel
+
+/-! ### CG_DESCENT: what a success implies (exact disjunction over the exits of `interval_t::done`) -/
+
+/-- For every oracle, `isfinite`, `(c1, c2)`, `t0` and the parameters in their registered domains (`CgDom`:
+    `0 ≤ epsilon`, `0 < ro`, `0 < theta < 1`): a success of CG_DESCENT returns a valid state and is one of
+    * Wolfe: Armijo and Wolfe (generated predicates) hold of the returned state and step;
+    * approximate Wolfe: `has_approx_armijo(epsilon·|f0|)` and `has_approx_wolfe(c1, c2)` hold;
+    * "bracketing failed" (`interval_t::done`: `b.g < 0` with a valid state): the upper end `b` of the bracketing interval is
+      an evaluated trial point with a NEGATIVE slope, and either more than `max_iterations` evaluations were made (the
+      shared budget `params.m_max_iterations` is exhausted) or the interval `[a, b]` is not wider than `stpmin()`;
+      NOTHING was tested on the returned state. -/
+theorem cgdescent_success_cases (cfg : Cfg α) (φ : Oracle α) (s0 : Eval α) (t0 : α) (hd : CgDom cfg) (he : 0 < cfg.macheps)
+    (hM : 0 < cfg.maxIter) (h : (get .cgdescent cfg φ s0 t0).ok = true) :
+    (get .cgdescent cfg φ s0 t0).ctx.cur.ok = true ∧
+    ((hasArmijo s0.f s0.g (get .cgdescent cfg φ s0 t0).ctx.cur.f (get .cgdescent cfg φ s0 t0).t cfg.c1 = true ∧
+        hasWolfe s0.g (get .cgdescent cfg φ s0 t0).ctx.cur.g cfg.c2 = true) ∨
+     (hasApproxArmijo s0.f (get .cgdescent cfg φ s0 t0).ctx.cur.f (cfg.cgEpsilon * absv s0.f) = true ∧
+        hasApproxWolfe s0.g (get .cgdescent cfg φ s0 t0).ctx.cur.g cfg.c1 cfg.c2 = true) ∨
+     (∃ a b : Step α, CgPoint φ s0 (get .cgdescent cfg φ s0 t0).ctx a ∧ CgPoint φ s0 (get .cgdescent cfg φ s0 t0).ctx b ∧
+        b.g < 0 ∧ (cfg.maxIter + 1 ≤ (get .cgdescent cfg φ s0 t0).ctx.trace.length ∨ b.t - a.t ≤ stpmin cfg.macheps))) := by
+  obtain ⟨t, ctx, ht, hc, hg, e⟩ := get_eq_doGet .cgdescent cfg φ s0 t0 hM h
+  rw [e] at h ⊢
+  obtain ⟨q1, q2, _⟩ := cgdescent_cases cfg φ s0 t ctx hd hg (ht he) hc h
+  refine ⟨q1, ?_⟩
+  rcases q2 with q2 | q2 | ⟨a, b, b1, b2, b3, b4⟩
+  · exact Or.inl q2
+  · exact Or.inr (Or.inl q2)
+  · refine Or.inr (Or.inr ⟨a, b, b1, b2, b3, ?_⟩)
+    rcases b4 with b4 | b4
+    · left
+      obtain ⟨rest, hr, _⟩ := hc
+      have : 1 ≤ ctx.trace.length := by rw [hr]; simp
+      exact le_trans (by omega) b4
+    · exact Or.inr b4
+
+/-- Consequence: when at most `max_iterations` evaluations were made and no two of the evaluated steps (or `0`) are within
+    `stpmin()` of each other, a success of CG_DESCENT satisfies Wolfe or approximate Wolfe. -/
+theorem cgdescent_success_within_budget (cfg : Cfg α) (φ : Oracle α) (s0 : Eval α) (t0 : α) (hd : CgDom cfg)
+    (he : 0 < cfg.macheps) (hM : 0 < cfg.maxIter) (h : (get .cgdescent cfg φ s0 t0).ok = true)
+    (hbudget : (get .cgdescent cfg φ s0 t0).ctx.trace.length ≤ cfg.maxIter)
+    (hsep : ∀ a b : Step α, CgPoint φ s0 (get .cgdescent cfg φ s0 t0).ctx a → CgPoint φ s0 (get .cgdescent cfg φ s0 t0).ctx b →
+      b.g < 0 → stpmin cfg.macheps < b.t - a.t) :
+    (hasArmijo s0.f s0.g (get .cgdescent cfg φ s0 t0).ctx.cur.f (get .cgdescent cfg φ s0 t0).t cfg.c1 = true ∧
+        hasWolfe s0.g (get .cgdescent cfg φ s0 t0).ctx.cur.g cfg.c2 = true) ∨
+     (hasApproxArmijo s0.f (get .cgdescent cfg φ s0 t0).ctx.cur.f (cfg.cgEpsilon * absv s0.f) = true ∧
+        hasApproxWolfe s0.g (get .cgdescent cfg φ s0 t0).ctx.cur.g cfg.c1 cfg.c2 = true) := by
+  rcases (cgdescent_success_cases cfg φ s0 t0 hd he hM h).2 with h1 | h1 | ⟨a, b, b1, b2, b3, b4⟩
+  · exact Or.inl h1
+  · exact Or.inr h1
+  · rcases b4 with b4 | b4
+    · omega
+    · exact absurd b4 (not_le.mpr (hsep a b b1 b2 b3))
+
+/-- CG_DESCENT never accepts a negative step, whatever the oracle answers. -/
+theorem cgdescent_success_step_nonneg (cfg : Cfg α) (φ : Oracle α) (s0 : Eval α) (t0 : α) (hd : CgDom cfg)
+    (he : 0 < cfg.macheps) (hM : 0 < cfg.maxIter) (h : (get .cgdescent cfg φ s0 t0).ok = true) :
+    0 ≤ (get .cgdescent cfg φ s0 t0).t := by
+  obtain ⟨t, ctx, ht, hc, hg, e⟩ := get_eq_doGet .cgdescent cfg φ s0 t0 hM h
+  rw [e] at h ⊢
+  obtain ⟨_, _, q3⟩ := cgdescent_cases cfg φ s0 t ctx hd hg (ht he) hc h
+  rcases q3 with q3 | ⟨q3, _⟩
+  · exact le_of_lt q3
+  · exact le_of_eq q3.symm
+
+/-- The step accepted by CG_DESCENT is strictly positive for every oracle that answers the slope of the origin whenever it
+    is asked at step `0` (`(φ k 0).g = g0`; in particular for every line function with `ψ 0 = s0`), `c2 < 1`: the second
+    secant step `secant(b0, b)` can be exactly `0` (see `cgdescent_zero_step_tried`), but Wolfe fails there. -/
+theorem cgdescent_success_step_positive (cfg : Cfg α) (φ : Oracle α) (s0 : Eval α) (t0 : α) (hd : CgDom cfg)
+    (he : 0 < cfg.macheps) (hc2 : cfg.c2 < 1) (hM : 0 < cfg.maxIter) (hφ : ∀ k, (φ k 0).g = s0.g)
+    (h : (get .cgdescent cfg φ s0 t0).ok = true) : 0 < (get .cgdescent cfg φ s0 t0).t := by
+  obtain ⟨rest, _, hcur⟩ := success_state_is_last_answer .cgdescent cfg φ s0 t0 hM h
+  obtain ⟨t, ctx, ht, hc, hg, e⟩ := get_eq_doGet .cgdescent cfg φ s0 t0 hM h
+  rw [e] at h hcur ⊢
+  obtain ⟨_, _, q3⟩ := cgdescent_cases cfg φ s0 t ctx hd hg (ht he) hc h
+  rcases q3 with q3 | ⟨q3, q4⟩
+  · exact q3
+  · exfalso
+    have hcur' : (cgdescent cfg φ s0 t ctx).ctx.cur = φ rest.length (cgdescent cfg φ s0 t ctx).t := hcur
+    rw [hcur', q3, hφ] at q4
+    simp only [hasWolfe, decide_eq_true_eq] at q4
+    nlinarith
+
+/-! ### kernel-checked model runs (over ℚ, line functions = consistent oracles): CG_DESCENT's exit without the advertised
+  conditions, and Moré–Thuente's former ones ("pre-3b214f8") next to what the present rule does on the same inputs
+
+  The interpolation formulas are the REAL ones of `lstep.cpp` (`cubic`, `quadratic`, `secant` of `Model/LSearch.lean`); the
+  square root of `cubic` is `ratSqrt`, exact on squares of rationals — which is what `cubic` takes the root of on quadratic
+  data (`¼h²(u.t - v.t)²`, see `interpolation_exact_on_quadratics`). The floating-point replays of these runs on the real code are
+  the ops of corpus/C07/ops.txt section 7 (and, for the ones the property oracle flags, the report of the C07 worker). -/
+
+/-- integer square root (Newton iteration, structural on the fuel) -/
+def isqrtGo : Nat → Nat → Nat → Nat
+  | 0, _, x => x
+  | fuel + 1, n, x => if (x + n / x) / 2 < x then isqrtGo fuel n ((x + n / x) / 2) else x
+
+def isqrt (n : Nat) : Nat := if n = 0 then 0 else isqrtGo (n.log2 + 8) n n
+
+/-- square root on ℚ, exact on squares of rationals -/
+def ratSqrt (q : ℚ) : ℚ := if q.num ≤ 0 then 0 else (isqrt q.num.toNat : ℚ) / (isqrt q.den : ℚ)
+
+example : ratSqrt (49 / 4) = 7 / 2 ∧ ratSqrt 0 = 0 ∧ ratSqrt (998001 / 1000000) = 999 / 1000 := by decide +kernel
+
+/-- `witnessCfg` with the real formulas `cubic` (root = `ratSqrt`) and `interpolate(cubic)` of lstep.cpp -/
+def realCfg : Cfg ℚ :=
+  letI : Sqrt ℚ := ⟨ratSqrt⟩
+  { witnessCfg with cubic := cubic, interp := interpolate (fun _ => true) Interp.cubic }
+
+/-- `φ(t) = -t`: linear, unbounded below along the direction -/
+def linearDown (t : ℚ) : Eval ℚ := ⟨-t, -1, true⟩
+
+/-- the loop body of `lsearchk_morethuente_t::do_get` BEFORE the repair 3b214f8 ("pre-3b214f8"): the two "no further progress"
+    tests, `stp >= stpmax()`, `stp <= stpmin()` and the convergence test, in this order, ALL returned `{true, stp}` (MINPACK-2
+    `dcsrch` reports the first four as warnings). Kept only to record what the old rule did on the runs below. -/
+def mtExitPre3b214f8 (cfg : Cfg ℚ) (s0 : Eval ℚ) (m : MT ℚ) (f g : ℚ) : Bool :=
+  mtGiveUp cfg s0 m f g || mtConverged cfg s0 m f g
+
+/-- pre-3b214f8 loop (same `mtNext`, same budget) -/
+def morethuentePre3b214f8 (cfg : Cfg ℚ) (φ : Oracle ℚ) (s0 : Eval ℚ) : Nat → MT ℚ → Ctx ℚ → Res ℚ
+  | 0, m, ctx => ⟨false, m.dc.stp, ctx⟩
+  | n + 1, m, ctx =>
+    if mtExitPre3b214f8 cfg s0 m ctx.cur.f ctx.cur.g then ⟨true, m.dc.stp, ctx⟩
+    else
+      let m' := mtNext cfg s0 m ctx.cur.f ctx.cur.g
+      let ctx' := ask φ ctx m'.dc.stp
+      if ctx'.cur.ok then morethuentePre3b214f8 cfg φ s0 n m' ctx' else ⟨false, m'.dc.stp, ctx'⟩
+
+/-- pre-3b214f8 `do_get` entered at the step `1` with the state evaluated there -/
+def mtRunPre3b214f8 (cfg : Cfg ℚ) (ψ : ℚ → Eval ℚ) : Res ℚ :=
+  morethuentePre3b214f8 cfg (fun _ => ψ) (ψ 0) cfg.maxIter (morethuenteInit cfg (ψ 0) 1) ⟨ψ 1, [1]⟩
+
+/-- `φ(t) = -t` (unbounded below): the step grows `1, 5, 21, 85, 100 = stpmax()` (`macheps = 1/1000`) with the slope unchanged.
+    pre-3b214f8: success was reported there — Armijo holds, Wolfe and strong Wolfe do NOT. Now: the search fails at `stpmax()`. -/
+theorem morethuente_at_stpmax_pre3b214f8_and_now :
+    (mtRunPre3b214f8 realCfg linearDown).ok = true ∧ (mtRunPre3b214f8 realCfg linearDown).t = 100 ∧
+    hasStrongWolfe (linearDown 0).g (mtRunPre3b214f8 realCfg linearDown).ctx.cur.g realCfg.c2 = false ∧
+    hasWolfe (linearDown 0).g (mtRunPre3b214f8 realCfg linearDown).ctx.cur.g realCfg.c2 = false ∧
+    (get .morethuente realCfg (fun _ => linearDown) (linearDown 0) 1).ok = false ∧
+    (get .morethuente realCfg (fun _ => linearDown) (linearDown 0) 1).t = 100 ∧
+    (get .morethuente realCfg (fun _ => linearDown) (linearDown 0) 1).ctx.trace = [100, 85, 21, 5, 1] := by
+  decide +kernel
+
+/-- the convex quadratic `φ(t) = -t + 500 t²` (minimiser `t* = 1/1000`, below `stpmin() = 1/100`) -/
+def steepQuadratic (t : ℚ) : Eval ℚ := ⟨-t + 500 * t * t, -1 + 1000 * t, true⟩
+
+/-- A convex quadratic whose minimiser along the line is below `stpmin()`: the interpolated step `t*` is clamped to `stpmin()`,
+    where the function value has INCREASED (`φ(1/100) = 1/25 > 0 = φ(0)`).
+    pre-3b214f8: success was reported there, with neither Armijo nor strong Wolfe. Now: the search FAILS there — honestly, but
+    the property's clause "on convex quadratics all five succeed" is not met in exact arithmetic either when `t* < stpmin()`. -/
+theorem morethuente_at_stpmin_pre3b214f8_and_now :
+    (mtRunPre3b214f8 realCfg steepQuadratic).ok = true ∧ (mtRunPre3b214f8 realCfg steepQuadratic).t = 1 / 100 ∧
+    (steepQuadratic 0).f < (mtRunPre3b214f8 realCfg steepQuadratic).ctx.cur.f ∧
+    hasArmijo (steepQuadratic 0).f (steepQuadratic 0).g (mtRunPre3b214f8 realCfg steepQuadratic).ctx.cur.f (1 / 100) realCfg.c1
+      = false ∧
+    hasStrongWolfe (steepQuadratic 0).g (mtRunPre3b214f8 realCfg steepQuadratic).ctx.cur.g realCfg.c2 = false ∧
+    (get .morethuente realCfg (fun _ => steepQuadratic) (steepQuadratic 0) 1).ok = false ∧
+    (get .morethuente realCfg (fun _ => steepQuadratic) (steepQuadratic 0) 1).t = 1 / 100 ∧
+    (get .morethuente realCfg (fun _ => steepQuadratic) (steepQuadratic 0) 1).ctx.trace = [1 / 100, 1] := by
+  decide +kernel
+
+/-- pre-3b214f8, "no further progress" exit: with an interpolation that answers outside the bracket (`cubic := 10`) the fallback
+    `stp = stx = 0` made the old rule report success with `t = 0`. (Now: `morethuente_zero_step_accepted_if_inconsistent`.) -/
+theorem morethuente_step_zero_pre3b214f8 :
+    (mtRunPre3b214f8 witnessCfg witnessPsi).ok = true ∧ (mtRunPre3b214f8 witnessCfg witnessPsi).t = 0 := by
+  decide +kernel
+
+/-- `φ(t) = (t - 10)²` -/
+def parabola10 (t : ℚ) : Eval ℚ := ⟨(t - 10) * (t - 10), 2 * (t - 10), true⟩
+
+/-- CG_DESCENT, "bracketing failed" exit — the model counterpart of the known finding
+    `cgdescent-success-violates-on-convex-quadratic`: on `φ(t) = (t - 10)²` with `max_iterations = 1` success is reported at
+    `t = 5` after 2 evaluations (`> max_iterations`); neither Wolfe nor approximate Wolfe holds there. -/
+theorem cgdescent_bracket_failed_reachable :
+    (get .cgdescent { realCfg with maxIter := 1 } (fun _ => parabola10) (parabola10 0) 1).ok = true ∧
+    (get .cgdescent { realCfg with maxIter := 1 } (fun _ => parabola10) (parabola10 0) 1).t = 5 ∧
+    (get .cgdescent { realCfg with maxIter := 1 } (fun _ => parabola10) (parabola10 0) 1).ctx.trace = [5, 1] ∧
+    hasWolfe (parabola10 0).g (get .cgdescent { realCfg with maxIter := 1 } (fun _ => parabola10) (parabola10 0) 1).ctx.cur.g
+      realCfg.c2 = false := by
+  decide +kernel
+
+/-- a line function with `φ(0) = 0, φ'(0) = -1`, `φ(1/2) = 1, φ'(1/2) = 1/2`, `φ(1) = 2, φ'(1) = 1` (e.g. the C¹ piecewise
+    cubic through these knots, harness function `herm`); elsewhere a point that is accepted at once -/
+def zeroStepPsi (t : ℚ) : Eval ℚ :=
+  if t = 0 then ⟨0, -1, true⟩ else if t = 1 / 2 then ⟨1, 1 / 2, true⟩ else if t = 1 then ⟨2, 1, true⟩ else ⟨-1, 0, true⟩
+
+/-- CG_DESCENT evaluates at the step `0`: with `a = (0, g=-1)`, `b0 = (1, g=1)` the secant step is `1/2`, `b = (1/2, g=1/2)`
+    and the second secant step `secant(b0, b)` is exactly `0`; the origin is re-evaluated (and rejected: Wolfe fails there). -/
+theorem cgdescent_zero_step_tried :
+    (get .cgdescent realCfg (fun _ => zeroStepPsi) (zeroStepPsi 0) 1).ctx.trace.reverse.take 3 = [1, 1 / 2, 0] := by
+  decide +kernel
+
+/-- …and an oracle that does NOT answer the slope of the origin at step `0` gets the step `0` accepted: the consistency
+    hypothesis of `cgdescent_success_step_positive` cannot be dropped. -/
+theorem cgdescent_zero_step_accepted_if_inconsistent :
+    (get .cgdescent realCfg (fun _ t => if t = 0 then ⟨0, 0, true⟩ else zeroStepPsi t) (zeroStepPsi 0) 1).ok = true ∧
+    (get .cgdescent realCfg (fun _ t => if t = 0 then ⟨0, 0, true⟩ else zeroStepPsi t) (zeroStepPsi 0) 1).t = 0 := by
+  decide +kernel
+
+
+/-! ### convex quadratics along the line, in exact arithmetic: `φ(t) = f0 + g0 t + h t²/2`, `g0 < 0 < h`, `t* = -g0/h`
+
+  The property's last sentence ("on convex quadratic objectives all five line-searches succeed and satisfy their advertised
+  conditions") is a convergence claim. Proved here, for every ordered field:
+    * the acceptance conditions as intervals of the step, and at the minimiser: strong Wolfe for every `c2 ≥ 0`, Armijo IFF
+      `c1 ≤ 1/2` (`quadratic_acceptance_intervals`, `quadratic_minimizer_accepted_iff`) — with `c1 > 1/2` every search whose
+      interpolation lands on `t*` must reject it: the known findings `…-fails-on-convex-quadratic/c1>=0.5`;
+    * the three interpolation formulas of lstep.cpp return exactly `t*` on quadratic data (`interpolation_exact_on_quadratics`);
+    * backtracking succeeds within `k + 1` iterations for the explicit `k` with `(1 - safeguard)^k · max(t1, 3B) ≤ 2(1 - c1) t*`,
+      whatever the interpolation function (`backtrack_succeeds_on_quadratic`);
+    * CG_DESCENT succeeds for EVERY `t0` with Wolfe or approximate Wolfe, given `ro^K·t1 ≥ t*` for some `K < max_iterations`
+      (`cgdescent_succeeds_on_quadratic`);
+    * LeMaréchal succeeds for EVERY `t0` with Armijo and Wolfe, given an explicit iteration budget `k + J + 3` (expansions +
+      clamped interpolations) (`lemarechal_succeeds_on_quadratic`);
+    * Fletcher succeeds for EVERY `t0` with Armijo and strong Wolfe, `c1 < 1/2`, given an explicit budget of `k` extrapolations
+      and `J` clamped zoom steps (`fletcher_succeeds_on_quadratic`);
+    * Moré–Thuente succeeds with Armijo and strong Wolfe within two evaluations whenever the first trial step does not
+      undershoot (`(1 - c2) t* ≤ t1`): at `t1`, at `t*`, or — when Armijo fails at `t1 ≤ 2t*` — at the minimiser `(1 - c1) t*` of
+      the MODIFIED function (`morethuente_quadratic_no_undershoot_partial`, `morethuente_quadratic_overshoot_partial`).
+  NOT proved for Moré–Thuente (hence `_partial`; the full statement is "for every `t0` and every `max_iterations ≥ K` the search
+  succeeds with its advertised conditions"): the undershooting first trial (extrapolation to `min(t*, t + 4(t - stx))`, possibly
+  overshooting to `t + 1.1 (t - stx)`). The "succeed" clause itself is FALSE in exact arithmetic without `stpmin() ≤ t*`: there
+  the search now FAILS at `stpmin()` (before 3b214f8 it reported success with the value increased) —
+  `morethuente_at_stpmin_pre3b214f8_and_now`; the statement's "all five succeed" does not get this case, which is an honest
+  failure. In floating point the claim is tested by the oracle. -/
+
+/-- `get` on the quadratic line function from its own origin -/
+def quadGet (m : Method) (cfg : Cfg α) (f0 g0 h t0 : α) : Res α :=
+  get m cfg (fun _ => quadLine f0 g0 h) ⟨f0, g0, true⟩ t0
+
+/-- The generated predicates on a convex quadratic, as intervals of the step `t > 0`:
+    Armijo ⇔ `t ≤ 2(1 - c1) t*`, Wolfe ⇔ `(1 - c2) t* ≤ t`, strong Wolfe ⇔ `|t - t*| ≤ c2 t*`. -/
+theorem quadratic_acceptance_intervals (f0 g0 h c1 c2 t : α) (hg : g0 < 0) (hh : 0 < h) (ht : 0 < t) :
+    (hasArmijo f0 g0 (quadLine f0 g0 h t).f t c1 = true ↔ t ≤ 2 * (1 - c1) * tstar g0 h) ∧
+    (hasWolfe g0 (quadLine f0 g0 h t).g c2 = true ↔ (1 - c2) * tstar g0 h ≤ t) ∧
+    (hasStrongWolfe g0 (quadLine f0 g0 h t).g c2 = true ↔ |t - tstar g0 h| ≤ c2 * tstar g0 h) :=
+  ⟨armijo_quad_iff hh ht, wolfe_quad_iff hh, strongWolfe_quad_iff hg hh⟩
+
+/-- At the exact minimiser `t* = -g0/h > 0`: Wolfe and strong Wolfe hold for every `c2 ≥ 0`; Armijo holds IFF `c1 ≤ 1/2`. -/
+theorem quadratic_minimizer_accepted_iff (f0 g0 h c1 c2 : α) (hg : g0 < 0) (hh : 0 < h) (hc2 : 0 ≤ c2) :
+    0 < tstar g0 h ∧ (quadLine f0 g0 h (tstar g0 h)).g = 0 ∧
+    hasStrongWolfe g0 (quadLine f0 g0 h (tstar g0 h)).g c2 = true ∧ hasWolfe g0 (quadLine f0 g0 h (tstar g0 h)).g c2 = true ∧
+    (hasArmijo f0 g0 (quadLine f0 g0 h (tstar g0 h)).f (tstar g0 h) c1 = true ↔ c1 ≤ 1 / 2) :=
+  ⟨tstar_pos hg hh, quadLine_tstar_g hh, (strongWolfe_at_tstar hg hh hc2).1, (strongWolfe_at_tstar hg hh hc2).2,
+    armijo_at_tstar_iff hg hh⟩
+
+/-- `lsearch_step_t::quadratic`, `::secant` and `::cubic` (with any square root that is one on non-negative arguments)
+    return exactly `t*` for any two distinct points of the quadratic; so does `lsearch_step_t::interpolate` in the modes
+    `quadratic` and `cubic` when `isfinite(t*)`. -/
+theorem interpolation_exact_on_quadratics [Sqrt α]
+    (hs : ∀ x : α, 0 ≤ x → 0 ≤ Sqrt.sqrt x ∧ Sqrt.sqrt x * Sqrt.sqrt x = x) (f0 g0 h : α) (hh : 0 < h) (u v : Step α)
+    (hu : OnQuad f0 g0 h u) (hv : OnQuad f0 g0 h v) (hne : u.t ≠ v.t) :
+    quadratic u v = tstar g0 h ∧ secant u v = tstar g0 h ∧ cubic u v = tstar g0 h ∧
+    (∀ (fin : α → Bool) (mode : Interp), fin (tstar g0 h) = true → mode ≠ .bisection →
+      interpolate fin mode u v = tstar g0 h) :=
+  ⟨quadratic_exact hh u v hu hv hne, secant_exact hh u v hu hv hne, cubic_exact hs hh u v hu hv hne,
+    fun fin mode hfin hm => interpolate_exact hs fin hh hfin mode hm u v hu hv hne⟩
+
+/-- Backtracking on a convex quadratic, every interpolation function, every `t0`: with `t1 = initialStep(t0)` (the clamped
+    initial step), any `B ≥ 4t*` with `epsilon1 ≤ h B²/4` (the second loop of `get` cannot triple the step beyond `3B`) and
+    any `k < max_iterations` with `(1 - safeguard)^k · max(t1, 3B) ≤ 2(1 - c1) t*`, the search succeeds; the accepted step is
+    positive, satisfies Armijo, and the state is the evaluation there. -/
+theorem backtrack_succeeds_on_quadratic (cfg : Cfg α) (f0 g0 h t0 B : α) (k : Nat) (hg : g0 < 0) (hh : 0 < h)
+    (hs0 : 0 < cfg.safeguard) (hs1 : cfg.safeguard ≤ 1 / 2) (he : 0 < cfg.macheps) (hk : k < cfg.maxIter)
+    (hB : 4 * tstar g0 h ≤ B) (hB2 : cfg.eps1 ≤ h * B * B / 4)
+    (hT : (1 - cfg.safeguard) ^ k * max (initialStep cfg t0) (3 * B) ≤ 2 * (1 - cfg.c1) * tstar g0 h) :
+    (quadGet .backtrack cfg f0 g0 h t0).ok = true ∧
+    hasArmijo f0 g0 (quadGet .backtrack cfg f0 g0 h t0).ctx.cur.f (quadGet .backtrack cfg f0 g0 h t0).t cfg.c1 = true ∧
+    0 < (quadGet .backtrack cfg f0 g0 h t0).t ∧
+    (quadGet .backtrack cfg f0 g0 h t0).ctx.cur = quadLine f0 g0 h (quadGet .backtrack cfg f0 g0 h t0).t := by
+  have hM : 0 < cfg.maxIter := by omega
+  obtain ⟨t, ctx, e, hcur, hle, hcase⟩ := get_line_eq_doGet (quadLine f0 g0 h) (fun _ => rfl) .backtrack cfg ⟨f0, g0, true⟩ t0
+    hg hM he
+  have ht0 : 0 < t := lt_of_lt_of_le (initialStep_pos cfg t0 he) hle
+  have hmax : t ≤ max (initialStep cfg t0) (3 * B) := by
+    rcases hcase with h1 | ⟨t'', _, h2, h3⟩
+    · rw [h1]; exact le_max_left _ _
+    · have := quad_small_change_lt hg hh hB hB2 h3
+      exact le_trans (by rw [h2]; linarith) (le_max_right _ _)
+  have hk' : (1 - cfg.safeguard) ^ k * t ≤ 2 * (1 - cfg.c1) * tstar g0 h :=
+    le_trans (mul_le_mul_of_nonneg_left hmax (pow_nonneg (by linarith) k)) hT
+  obtain ⟨r1, r2, _, r4⟩ := backtrack_quad_run cfg f0 g0 h hg hh hs0 hs1 k cfg.maxIter t ctx hk ht0 hcur hk'
+  have hok : (quadGet .backtrack cfg f0 g0 h t0).ok = true := by unfold quadGet; rw [e]; exact r1
+  refine ⟨hok, backtrack_success_armijo cfg _ ⟨f0, g0, true⟩ t0 hM hok, ?_, ?_⟩
+  · unfold quadGet; rw [e]; exact r2
+  · unfold quadGet; rw [e]; exact r4
+
+/-- LeMaréchal on a convex quadratic, EVERY `t0` (full statement, no `_partial`), for an interpolation that is exact on
+    quadratics (`InterpExact`: the modes `quadratic` and `cubic` of `lsearch_step_t::interpolate`,
+    `interpolation_exact_on_quadratics`), `0 < safeguard ≤ 1/2`, `1 < tau1`, `c1 ≤ 1/2`, `0 < c2 < 1`, `0 < epsilon0 ≤ 2(1 - c1)t*`.
+    Write `A = (1 - c2)t*` (Wolfe ⇔ `A ≤ t`), `T = 2(1 - c1)t*` (Armijo ⇔ `t ≤ T`), `t1 = initialStep(t0)`, `B` as for backtracking.
+    If `tau1^k · t1 ≥ A` (at most `k` expansions), `safeguard^J · max(t1, 3B, tau1·A) < T - A` (at most `J` clamped interpolations:
+    each multiplies the width of the bracket, which always contains `[A, T]`, by `safeguard`) and `max_iterations ≥ k + J + 3`, the
+    search succeeds at a positive step with Armijo and Wolfe, the state being the evaluation there. -/
+theorem lemarechal_succeeds_on_quadratic (cfg : Cfg α) (f0 g0 h t0 B : α) (k J : Nat) (hg : g0 < 0) (hh : 0 < h)
+    (hI : InterpExact cfg f0 g0 h) (hs0 : 0 < cfg.safeguard) (hs1 : cfg.safeguard ≤ 1 / 2) (htau : 1 < cfg.tau1)
+    (hc1 : cfg.c1 ≤ 1 / 2) (hc20 : 0 < cfg.c2) (hc21 : cfg.c2 < 1) (heps0 : 0 < cfg.eps0)
+    (heps1 : cfg.eps0 ≤ 2 * (1 - cfg.c1) * tstar g0 h) (he : 0 < cfg.macheps) (hM : k + J + 3 ≤ cfg.maxIter)
+    (hB : 4 * tstar g0 h ≤ B) (hB2 : cfg.eps1 ≤ h * B * B / 4)
+    (hk : (1 - cfg.c2) * tstar g0 h ≤ cfg.tau1 ^ k * initialStep cfg t0)
+    (hJ : cfg.safeguard ^ J * max (max (initialStep cfg t0) (3 * B)) (cfg.tau1 * ((1 - cfg.c2) * tstar g0 h)) <
+      2 * (1 - cfg.c1) * tstar g0 h - (1 - cfg.c2) * tstar g0 h) :
+    (quadGet .lemarechal cfg f0 g0 h t0).ok = true ∧ 0 < (quadGet .lemarechal cfg f0 g0 h t0).t ∧
+    (quadGet .lemarechal cfg f0 g0 h t0).ctx.cur = quadLine f0 g0 h (quadGet .lemarechal cfg f0 g0 h t0).t ∧
+    hasArmijo f0 g0 (quadGet .lemarechal cfg f0 g0 h t0).ctx.cur.f (quadGet .lemarechal cfg f0 g0 h t0).t cfg.c1 = true ∧
+    hasWolfe g0 (quadGet .lemarechal cfg f0 g0 h t0).ctx.cur.g cfg.c2 = true := by
+  have hM0 : 0 < cfg.maxIter := by omega
+  have hp := tstar_pos hg hh
+  obtain ⟨t, ctx, e, hcur, hle, hcase⟩ := get_line_eq_doGet (quadLine f0 g0 h) (fun _ => rfl) .lemarechal cfg ⟨f0, g0, true⟩ t0
+    hg hM0 he
+  have ht0 : 0 < t := lt_of_lt_of_le (initialStep_pos cfg t0 he) hle
+  have hmax : t ≤ max (initialStep cfg t0) (3 * B) := by
+    rcases hcase with h1 | ⟨t'', _, h2, h3⟩
+    · rw [h1]; exact le_max_left _ _
+    · have := quad_small_change_lt hg hh hB hB2 h3
+      exact le_trans (by rw [h2]; linarith) (le_max_right _ _)
+  have hk' : (1 - cfg.c2) * tstar g0 h ≤ cfg.tau1 ^ k * t :=
+    le_trans hk (mul_le_mul_of_nonneg_left hle (pow_nonneg (by linarith) k))
+  have hJ' : cfg.safeguard ^ J * max t (cfg.tau1 * ((1 - cfg.c2) * tstar g0 h)) <
+      2 * (1 - cfg.c1) * tstar g0 h - (1 - cfg.c2) * tstar g0 h :=
+    lt_of_le_of_lt (mul_le_mul_of_nonneg_left (max_le_max hmax (le_refl _)) (pow_nonneg (le_of_lt hs0) J)) hJ
+  have hA0 : (0 : α) < (1 - cfg.c2) * tstar g0 h := mul_pos (by linarith) hp
+  obtain ⟨r1, r2, r3⟩ := lemarechal_quad_expand cfg f0 g0 h hg hh hI hs0 hs1 hc1 hc20 hc21 heps0 heps1 htau J k (cfg.maxIter - 1)
+    ⟨0, f0, g0⟩ t ctx (by omega) (onQuad_origin f0 g0 h) (le_refl _) hA0 ht0 hcur hk' hJ'
+  have e3 : quadGet .lemarechal cfg f0 g0 h t0 =
+      lemarechal cfg (fun _ => quadLine f0 g0 h) ⟨f0, g0, true⟩ (cfg.maxIter - 1) ⟨0, f0, g0⟩ ⟨0, f0, g0⟩ t ctx := by
+    unfold quadGet; rw [e]; rfl
+  have hok : (quadGet .lemarechal cfg f0 g0 h t0).ok = true := by rw [e3]; exact r1
+  have hcond := lemarechal_success_armijo_wolfe cfg (fun _ => quadLine f0 g0 h) ⟨f0, g0, true⟩ t0 hM0 hok
+  refine ⟨hok, by rw [e3]; exact r2, by rw [e3]; exact r3, hcond.1, hcond.2⟩
+
+/-- LeMaréchal on a convex quadratic, overshooting first trial (a refinement of the theorem above): if the clamped initial step
+    `t1` is not tripled by the preamble (`epsilon1 ≤ |φ(t1) - φ(0)|`), violates Armijo (`2(1 - c1) t* < t1`) and the safeguards do
+    not clamp the interpolated step (`safeguard·t1 ≤ t* ≤ (1 - safeguard)·t1`), then with `c1 ≤ 1/2`, `0 ≤ c2`,
+    `max_iterations ≥ 3` the search succeeds after TWO evaluations, exactly at `t*`, with Armijo and Wolfe. -/
+theorem lemarechal_quadratic_overshoot_exact_step (cfg : Cfg α) (f0 g0 h t0 : α) (hg : g0 < 0) (hh : 0 < h)
+    (hI : InterpExact cfg f0 g0 h) (hM : 3 ≤ cfg.maxIter)
+    (hng : cfg.eps1 ≤ |(quadLine f0 g0 h (initialStep cfg t0)).f - f0|)
+    (ht : 2 * (1 - cfg.c1) * tstar g0 h < initialStep cfg t0)
+    (hlo : cfg.safeguard * initialStep cfg t0 ≤ tstar g0 h) (hhi : tstar g0 h ≤ (1 - cfg.safeguard) * initialStep cfg t0)
+    (hc1 : cfg.c1 ≤ 1 / 2) (hc2 : 0 ≤ cfg.c2) :
+    (quadGet .lemarechal cfg f0 g0 h t0).ok = true ∧ (quadGet .lemarechal cfg f0 g0 h t0).t = tstar g0 h ∧
+    (quadGet .lemarechal cfg f0 g0 h t0).ctx.cur = quadLine f0 g0 h (tstar g0 h) ∧
+    hasArmijo f0 g0 (quadGet .lemarechal cfg f0 g0 h t0).ctx.cur.f (quadGet .lemarechal cfg f0 g0 h t0).t cfg.c1 = true ∧
+    hasWolfe g0 (quadGet .lemarechal cfg f0 g0 h t0).ctx.cur.g cfg.c2 = true := by
+  have e := get_line_nogrow (quadLine f0 g0 h) (fun _ => rfl) .lemarechal cfg ⟨f0, g0, true⟩ t0 hg (by omega)
+    (by rw [absv_eq_abs]; exact not_lt.mpr hng)
+  obtain ⟨n, hn⟩ : ∃ n, cfg.maxIter - 1 = n + 2 := ⟨cfg.maxIter - 3, by omega⟩
+  have e2 := lemarechal_quad_overshoot cfg f0 g0 h hg hh hI n (initialStep cfg t0)
+    ⟨quadLine f0 g0 h (initialStep cfg t0), [initialStep cfg t0]⟩ rfl ht hlo hhi hc1 hc2
+  have e3 : quadGet .lemarechal cfg f0 g0 h t0 = ⟨true, tstar g0 h, ask (fun _ => quadLine f0 g0 h)
+      ⟨quadLine f0 g0 h (initialStep cfg t0), [initialStep cfg t0]⟩ (tstar g0 h)⟩ := by
+    unfold quadGet; rw [e]; simp only [doGet]; rw [hn]; exact e2
+  rw [e3]
+  refine ⟨rfl, rfl, by simp [ask], ?_, ?_⟩
+  · simpa [ask] using (armijo_at_tstar_iff hg hh).mpr hc1
+  · simpa [ask] using (strongWolfe_at_tstar (f0 := f0) hg hh hc2).2
+
+/-- Fletcher on a convex quadratic, EVERY `t0` (full statement, no `_partial`), for an interpolation that is exact on quadratics,
+    `c1 < 1/2`, `0 < c2 < 1`, `0 < tau2 ≤ tau3 ≤ 1/2`, `2 ≤ tau1`, `epsilon0 ≤ c2·t*`. With `t1 = initialStep(t0)`, `B` as for
+    backtracking: if `tau1^k · t1 ≥ t*` (at most `k` extrapolations in the bracketing phase), `tau3^J · max(t1, 3B, (1 + tau1)t*) ≤
+    min(c2, 1 - 2c1)·t*` (at most `J` clamped interpolations in `zoom`: each multiplies the width of the bracket, which always
+    contains `t*` and a point that fails strong Wolfe, by at most `tau3`; a trial within `min(c2, 1 - 2c1)t*` of `t*` is accepted),
+    `max_iterations ≥ k + 2` and `max_iterations > J`, the search succeeds at a positive step with Armijo and strong Wolfe, the
+    state being the evaluation there. -/
+theorem fletcher_succeeds_on_quadratic (cfg : Cfg α) (f0 g0 h t0 B : α) (k J : Nat) (hg : g0 < 0) (hh : 0 < h)
+    (hI : InterpExact cfg f0 g0 h) (hc1 : cfg.c1 < 1 / 2) (hc20 : 0 < cfg.c2) (hc21 : cfg.c2 < 1)
+    (htau2 : 0 < cfg.tau2) (htau23 : cfg.tau2 ≤ cfg.tau3) (htau3 : cfg.tau3 ≤ 1 / 2) (htau1 : 2 ≤ cfg.tau1)
+    (heps1 : cfg.eps0 ≤ cfg.c2 * tstar g0 h) (he : 0 < cfg.macheps) (hM : k + 2 ≤ cfg.maxIter) (hMJ : J < cfg.maxIter)
+    (hB : 4 * tstar g0 h ≤ B) (hB2 : cfg.eps1 ≤ h * B * B / 4)
+    (hk : tstar g0 h ≤ cfg.tau1 ^ k * initialStep cfg t0)
+    (hJ : cfg.tau3 ^ J * max (max (initialStep cfg t0) (3 * B)) ((1 + cfg.tau1) * tstar g0 h) ≤
+      min cfg.c2 (1 - 2 * cfg.c1) * tstar g0 h) :
+    (quadGet .fletcher cfg f0 g0 h t0).ok = true ∧ 0 < (quadGet .fletcher cfg f0 g0 h t0).t ∧
+    (quadGet .fletcher cfg f0 g0 h t0).ctx.cur = quadLine f0 g0 h (quadGet .fletcher cfg f0 g0 h t0).t ∧
+    hasArmijo f0 g0 (quadGet .fletcher cfg f0 g0 h t0).ctx.cur.f (quadGet .fletcher cfg f0 g0 h t0).t cfg.c1 = true ∧
+    hasStrongWolfe g0 (quadGet .fletcher cfg f0 g0 h t0).ctx.cur.g cfg.c2 = true := by
+  have hM0 : 0 < cfg.maxIter := by omega
+  have hp := tstar_pos hg hh
+  have htau30 : 0 < cfg.tau3 := lt_of_lt_of_le htau2 htau23
+  obtain ⟨t, ctx, e, hcur, hle, hcase⟩ := get_line_eq_doGet (quadLine f0 g0 h) (fun _ => rfl) .fletcher cfg ⟨f0, g0, true⟩ t0
+    hg hM0 he
+  have ht0 : 0 < t := lt_of_lt_of_le (initialStep_pos cfg t0 he) hle
+  have hmax : t ≤ max (initialStep cfg t0) (3 * B) := by
+    rcases hcase with h1 | ⟨t'', _, h2, h3⟩
+    · rw [h1]; exact le_max_left _ _
+    · have := quad_small_change_lt hg hh hB hB2 h3
+      exact le_trans (by rw [h2]; linarith) (le_max_right _ _)
+  have hk' : tstar g0 h ≤ (⟨0, f0, g0⟩ : Step α).t + cfg.tau1 ^ k * (t - (⟨0, f0, g0⟩ : Step α).t) := by
+    simp only [zero_add, sub_zero]
+    exact le_trans hk (mul_le_mul_of_nonneg_left hle (pow_nonneg (by linarith) k))
+  have hJ' : cfg.tau3 ^ J * max t ((1 + cfg.tau1) * tstar g0 h) ≤ min cfg.c2 (1 - 2 * cfg.c1) * tstar g0 h :=
+    le_trans (mul_le_mul_of_nonneg_left (max_le_max hmax (le_refl _)) (pow_nonneg (le_of_lt htau30) J)) hJ
+  have hnsw0 : cfg.c2 * tstar g0 h < |(⟨0, f0, g0⟩ : Step α).t - tstar g0 h| := by
+    simp only [zero_sub, abs_neg, abs_of_pos hp]; nlinarith
+  obtain ⟨r1, r2, r3⟩ := fletcher_quad cfg f0 g0 h hg hh hI hc1 hc20 hc21 htau2 htau23 htau3 heps1 htau1 J hMJ k (cfg.maxIter - 1)
+    ⟨0, f0, g0⟩ t ctx (by omega) (onQuad_origin f0 g0 h) (le_refl _) ht0 hp hnsw0 hcur hk' hJ'
+  have e3 : quadGet .fletcher cfg f0 g0 h t0 =
+      fletcher cfg (fun _ => quadLine f0 g0 h) ⟨f0, g0, true⟩ (cfg.maxIter - 1) ⟨0, f0, g0⟩ (stepOf ctx t) t ctx := by
+    unfold quadGet; rw [e]; rfl
+  have hok : (quadGet .fletcher cfg f0 g0 h t0).ok = true := by rw [e3]; exact r1
+  have hcond := fletcher_success_armijo_strong_wolfe cfg (fun _ => quadLine f0 g0 h) ⟨f0, g0, true⟩ t0 hM0 hok
+  refine ⟨hok, by rw [e3]; exact r2, by rw [e3]; exact r3, hcond.1, hcond.2⟩
+
+/-- Fletcher on a convex quadratic, overshooting first trial (a refinement of the theorem above; `c1 = 1/2` allowed): if `t1`
+    is not tripled, violates Armijo and the zoom safeguards do not clamp (`min(tau2, c2)·t1 ≤ t* ≤ (1 - tau3)·t1`), `epsilon0 < t1`,
+    `max_iterations ≥ 2`: success after TWO evaluations, exactly at `t*`, with Armijo and strong Wolfe. -/
+theorem fletcher_quadratic_overshoot_exact_step (cfg : Cfg α) (f0 g0 h t0 : α) (hg : g0 < 0) (hh : 0 < h)
+    (hI : InterpExact cfg f0 g0 h) (hM : 2 ≤ cfg.maxIter) (he : 0 < cfg.macheps)
+    (hng : cfg.eps1 ≤ |(quadLine f0 g0 h (initialStep cfg t0)).f - f0|)
+    (ht : 2 * (1 - cfg.c1) * tstar g0 h < initialStep cfg t0)
+    (hlo : min cfg.tau2 cfg.c2 * initialStep cfg t0 ≤ tstar g0 h) (hhi : tstar g0 h ≤ (1 - cfg.tau3) * initialStep cfg t0)
+    (heps : cfg.eps0 < initialStep cfg t0) (hc1 : cfg.c1 ≤ 1 / 2) (hc2 : 0 ≤ cfg.c2) :
+    (quadGet .fletcher cfg f0 g0 h t0).ok = true ∧ (quadGet .fletcher cfg f0 g0 h t0).t = tstar g0 h ∧
+    (quadGet .fletcher cfg f0 g0 h t0).ctx.cur = quadLine f0 g0 h (tstar g0 h) ∧
+    hasArmijo f0 g0 (quadGet .fletcher cfg f0 g0 h t0).ctx.cur.f (quadGet .fletcher cfg f0 g0 h t0).t cfg.c1 = true ∧
+    hasStrongWolfe g0 (quadGet .fletcher cfg f0 g0 h t0).ctx.cur.g cfg.c2 = true := by
+  have e := get_line_nogrow (quadLine f0 g0 h) (fun _ => rfl) .fletcher cfg ⟨f0, g0, true⟩ t0 hg (by omega)
+    (by rw [absv_eq_abs]; exact not_lt.mpr hng)
+  obtain ⟨n, hn⟩ : ∃ n, cfg.maxIter - 1 = n + 1 := ⟨cfg.maxIter - 2, by omega⟩
+  have e2 := fletcher_quad_overshoot cfg f0 g0 h hg hh hI n (initialStep cfg t0)
+    ⟨quadLine f0 g0 h (initialStep cfg t0), [initialStep cfg t0]⟩ rfl ht (initialStep_pos cfg t0 he) hlo hhi hc1 hc2
+    (by omega) heps
+  have e3 : quadGet .fletcher cfg f0 g0 h t0 = ⟨true, tstar g0 h, ask (fun _ => quadLine f0 g0 h)
+      ⟨quadLine f0 g0 h (initialStep cfg t0), [initialStep cfg t0]⟩ (tstar g0 h)⟩ := by
+    unfold quadGet; rw [e]; simp only [doGet]; rw [hn]; exact e2
+  rw [e3]
+  refine ⟨rfl, rfl, by simp [ask], ?_, ?_⟩
+  · simpa [ask] using (armijo_at_tstar_iff hg hh).mpr hc1
+  · simpa [ask] using (strongWolfe_at_tstar (f0 := f0) hg hh hc2).1
+
+/-- Moré–Thuente on a convex quadratic — PARTIAL (overshoot case): if `t1` is not tripled, `2t* < t1` (the value increased),
+    `stpmin() ≤ t* ≤ stpmax()`, no bisection is forced (`t1 < 1.32 (stpmax() - stpmin())`), `0 ≤ c1 ≤ 1/2`, `0 ≤ c2`,
+    `epsilon0 < 1`, `max_iterations ≥ 2` and `cfg.cubic` is exact on quadratics (`interpolation_exact_on_quadratics`): success at
+    `t*` with Armijo and strong Wolfe. -/
+theorem morethuente_quadratic_overshoot_partial (cfg : Cfg α) (f0 g0 h t0 : α) (hg : g0 < 0) (hh : 0 < h)
+    (hC : ∀ u v : Step α, OnQuad f0 g0 h u → OnQuad f0 g0 h v → u.t ≠ v.t → cfg.cubic u v = tstar g0 h)
+    (hM : 2 ≤ cfg.maxIter) (hng : cfg.eps1 ≤ |(quadLine f0 g0 h (initialStep cfg t0)).f - f0|)
+    (ht : 2 * tstar g0 h < initialStep cfg t0) (hlo : stpmin cfg.macheps ≤ tstar g0 h) (hhi : tstar g0 h ≤ stpmax cfg.macheps)
+    (hbis : initialStep cfg t0 < 2 * (stpmax cfg.macheps - stpmin cfg.macheps) * (66 / 100))
+    (hc10 : 0 ≤ cfg.c1) (hc1 : cfg.c1 ≤ 1 / 2) (hc2 : 0 ≤ cfg.c2) (heps : cfg.eps0 < 1) :
+    (quadGet .morethuente cfg f0 g0 h t0).ok = true ∧ (quadGet .morethuente cfg f0 g0 h t0).t = tstar g0 h ∧
+    (quadGet .morethuente cfg f0 g0 h t0).ctx.cur = quadLine f0 g0 h (tstar g0 h) ∧
+    hasArmijo f0 g0 (quadGet .morethuente cfg f0 g0 h t0).ctx.cur.f (quadGet .morethuente cfg f0 g0 h t0).t cfg.c1 = true ∧
+    hasStrongWolfe g0 (quadGet .morethuente cfg f0 g0 h t0).ctx.cur.g cfg.c2 = true := by
+  have e := get_line_nogrow (quadLine f0 g0 h) (fun _ => rfl) .morethuente cfg ⟨f0, g0, true⟩ t0 hg (by omega)
+    (by rw [absv_eq_abs]; exact not_lt.mpr hng)
+  obtain ⟨n, hn⟩ : ∃ n, cfg.maxIter = n + 2 := ⟨cfg.maxIter - 2, by omega⟩
+  have e2 := morethuente_quad_overshoot cfg f0 g0 h hg hh hC n (initialStep cfg t0)
+    ⟨quadLine f0 g0 h (initialStep cfg t0), [initialStep cfg t0]⟩ rfl ht hlo hhi hbis hc10 hc1 hc2 heps
+  have e3 : quadGet .morethuente cfg f0 g0 h t0 = ⟨true, tstar g0 h, ask (fun _ => quadLine f0 g0 h)
+      ⟨quadLine f0 g0 h (initialStep cfg t0), [initialStep cfg t0]⟩ (tstar g0 h)⟩ := by
+    unfold quadGet; rw [e]; simp only [doGet]; rw [hn]; exact e2
+  rw [e3]
+  refine ⟨rfl, rfl, by simp [ask], ?_, ?_⟩
+  · simpa [ask] using (armijo_at_tstar_iff hg hh).mpr hc1
+  · simpa [ask] using (strongWolfe_at_tstar (f0 := f0) hg hh hc2).1
+
+/-- Moré–Thuente on a convex quadratic — PARTIAL (every first trial that does not undershoot): if the clamped initial step `t1`
+    is not tripled by the preamble and `(1 - c2) t* ≤ t1`, then with `cfg.cubic` exact on quadratics of curvature `h`
+    (`CubicExact`; the real formula is: `interpolation_exact_on_quadratics`), `0 ≤ c1 ≤ 1/2`, `c1 ≤ c2`, `epsilon0 < 1`,
+    `stpmin() ≤ (1 - c1) t*`, `t* ≤ stpmax()`, `t1 < 1.32 (stpmax() - stpmin())` (no forced bisection), `max_iterations ≥ 2`,
+    the search succeeds after at most TWO evaluations with Armijo and strong Wolfe, at
+      * `t1` itself when it is acceptable,
+      * `t*` when `(1 + c2) t* < t1 ≤ 2(1 - c1) t*` (stage 2, slopes of opposite sign) or `2t* < t1` (the value increased),
+      * `(1 - c1) t*` — NOT `t*` — when `2(1 - c1) t* < t1 ≤ 2t*`: stage 1 interpolates the modified function
+        `φ(t) - φ(0) - c1 φ'(0) t`, whose minimiser that is.
+    Missing for the full claim ("for every `t0`"): the undershooting first trial `t1 < (1 - c2) t*` (extrapolation to
+    `min(t*, stmax)`, `stmax = t + 4 (t - stx)`, possibly overshooting to `stmin = t + 1.1 (t - stx)`, then one of the cases
+    above with `stx ≠ 0`). -/
+theorem morethuente_quadratic_no_undershoot_partial (cfg : Cfg α) (f0 g0 h t0 : α) (hg : g0 < 0) (hh : 0 < h)
+    (hC : CubicExact cfg h) (hM : 2 ≤ cfg.maxIter) (he : 0 < cfg.macheps)
+    (hng : cfg.eps1 ≤ |(quadLine f0 g0 h (initialStep cfg t0)).f - f0|)
+    (ht : (1 - cfg.c2) * tstar g0 h ≤ initialStep cfg t0)
+    (hlo : stpmin cfg.macheps ≤ (1 - cfg.c1) * tstar g0 h) (hhi : tstar g0 h ≤ stpmax cfg.macheps)
+    (hbis : initialStep cfg t0 < 2 * (stpmax cfg.macheps - stpmin cfg.macheps) * (66 / 100))
+    (hc10 : 0 ≤ cfg.c1) (hc1 : cfg.c1 ≤ 1 / 2) (hc12 : cfg.c1 ≤ cfg.c2) (heps : cfg.eps0 < 1) :
+    (quadGet .morethuente cfg f0 g0 h t0).ok = true ∧
+    ((quadGet .morethuente cfg f0 g0 h t0).t = initialStep cfg t0 ∨ (quadGet .morethuente cfg f0 g0 h t0).t = tstar g0 h ∨
+      (quadGet .morethuente cfg f0 g0 h t0).t = (1 - cfg.c1) * tstar g0 h) ∧
+    (quadGet .morethuente cfg f0 g0 h t0).ctx.cur = quadLine f0 g0 h (quadGet .morethuente cfg f0 g0 h t0).t ∧
+    hasArmijo f0 g0 (quadGet .morethuente cfg f0 g0 h t0).ctx.cur.f (quadGet .morethuente cfg f0 g0 h t0).t cfg.c1 = true ∧
+    hasStrongWolfe g0 (quadGet .morethuente cfg f0 g0 h t0).ctx.cur.g cfg.c2 = true := by
+  have hp := tstar_pos hg hh
+  have hc20 : 0 ≤ cfg.c2 := le_trans hc10 hc12
+  have ht10 := initialStep_pos cfg t0 he
+  have hlo' : stpmin cfg.macheps ≤ tstar g0 h := le_trans hlo (by nlinarith)
+  have hhi' : (1 - cfg.c1) * tstar g0 h ≤ stpmax cfg.macheps := le_trans (by nlinarith) hhi
+  have e := get_line_nogrow (quadLine f0 g0 h) (fun _ => rfl) .morethuente cfg ⟨f0, g0, true⟩ t0 hg (by omega)
+    (by rw [absv_eq_abs]; exact not_lt.mpr hng)
+  obtain ⟨n, hn⟩ : ∃ n, cfg.maxIter = n + 2 := ⟨cfg.maxIter - 2, by omega⟩
+  have e0 : quadGet .morethuente cfg f0 g0 h t0 = morethuente cfg (fun _ => quadLine f0 g0 h) ⟨f0, g0, true⟩ (n + 2)
+      (morethuenteInit cfg ⟨f0, g0, true⟩ (initialStep cfg t0)) ⟨quadLine f0 g0 h (initialStep cfg t0), [initialStep cfg t0]⟩ := by
+    unfold quadGet; rw [e]; simp only [doGet]; rw [hn]
+  -- what the three landing points satisfy
+  have hstar : hasArmijo f0 g0 (quadLine f0 g0 h (tstar g0 h)).f (tstar g0 h) cfg.c1 = true ∧
+      hasStrongWolfe g0 (quadLine f0 g0 h (tstar g0 h)).g cfg.c2 = true :=
+    ⟨(armijo_at_tstar_iff hg hh).mpr hc1, (strongWolfe_at_tstar hg hh hc20).1⟩
+  have htm0 : 0 < (1 - cfg.c1) * tstar g0 h := mul_pos (by linarith) hp
+  have hmod : hasArmijo f0 g0 (quadLine f0 g0 h ((1 - cfg.c1) * tstar g0 h)).f ((1 - cfg.c1) * tstar g0 h) cfg.c1 = true ∧
+      hasStrongWolfe g0 (quadLine f0 g0 h ((1 - cfg.c1) * tstar g0 h)).g cfg.c2 = true := by
+    refine ⟨(armijo_quad_iff hh htm0).mpr (by nlinarith), (strongWolfe_quad_iff hg hh).mpr ?_⟩
+    have : (1 - cfg.c1) * tstar g0 h - tstar g0 h = -(cfg.c1 * tstar g0 h) := by ring
+    rw [this, abs_neg, abs_of_nonneg (mul_nonneg hc10 (le_of_lt hp))]
+    exact mul_le_mul_of_nonneg_right hc12 (le_of_lt hp)
+  by_cases h2 : 2 * tstar g0 h < initialStep cfg t0
+  · -- the value increased
+    have e2 := morethuente_quad_overshoot cfg f0 g0 h hg hh (hC f0 g0) n (initialStep cfg t0)
+      ⟨quadLine f0 g0 h (initialStep cfg t0), [initialStep cfg t0]⟩ rfl h2 hlo' hhi hbis hc10 hc1 hc20 heps
+    rw [e0, e2]
+    exact ⟨rfl, Or.inr (Or.inl rfl), by simp [ask], by simpa [ask] using hstar.1, by simpa [ask] using hstar.2⟩
+  · have h2' : initialStep cfg t0 ≤ 2 * tstar g0 h := not_lt.mp h2
+    by_cases hT : 2 * (1 - cfg.c1) * tstar g0 h < initialStep cfg t0
+    · -- Armijo fails: modified function
+      have e2 := morethuente_quad_modified cfg f0 g0 h hg hh hC hc10 hc1 hc12 heps n (initialStep cfg t0)
+        ⟨quadLine f0 g0 h (initialStep cfg t0), [initialStep cfg t0]⟩ rfl hT h2' hlo hhi' hbis
+      rw [e0, e2]
+      exact ⟨rfl, Or.inr (Or.inr rfl), by simp [ask], by simpa [ask] using hmod.1, by simpa [ask] using hmod.2⟩
+    · have hT' : initialStep cfg t0 ≤ 2 * (1 - cfg.c1) * tstar g0 h := not_lt.mp hT
+      by_cases hS : (1 + cfg.c2) * tstar g0 h < initialStep cfg t0
+      · -- Armijo holds, positive slope: stage 2
+        have e2 := morethuente_quad_opposite cfg f0 g0 h hg hh hC hc10 hc1 hc12 heps n (initialStep cfg t0)
+          ⟨quadLine f0 g0 h (initialStep cfg t0), [initialStep cfg t0]⟩ rfl hc20 hS hT' hlo' hhi hbis
+        rw [e0, e2]
+        exact ⟨rfl, Or.inr (Or.inl rfl), by simp [ask], by simpa [ask] using hstar.1, by simpa [ask] using hstar.2⟩
+      · -- acceptable at once
+        have hS' : initialStep cfg t0 ≤ (1 + cfg.c2) * tstar g0 h := not_lt.mp hS
+        have hSW : |initialStep cfg t0 - tstar g0 h| ≤ cfg.c2 * tstar g0 h := by
+          rw [abs_le]; constructor <;> linarith
+        have hx := mt_convergence_quad cfg f0 g0 h hg hh hC hc10 hc1 hc12 heps
+          (morethuenteInit cfg ⟨f0, g0, true⟩ (initialStep cfg t0)) ht10 hT' hSW
+        have e2 := morethuente_exit_now cfg (fun _ => quadLine f0 g0 h) ⟨f0, g0, true⟩ (n + 1)
+          (morethuenteInit cfg ⟨f0, g0, true⟩ (initialStep cfg t0))
+          ⟨quadLine f0 g0 h (initialStep cfg t0), [initialStep cfg t0]⟩ hx
+        rw [e0, e2]
+        refine ⟨rfl, Or.inl rfl, rfl, ?_, ?_⟩
+        · exact (armijo_quad_iff hh ht10).mpr hT'
+        · exact (strongWolfe_quad_iff hg hh).mpr hSW
+
+/-- CG_DESCENT on a convex quadratic, EVERY `t0` (full statement, no `_partial`): with `t1 = initialStep(t0) > stpmin()`, any
+    `K < max_iterations` with `ro^K · t1 ≥ t*` (the bracketing phase multiplies the step by `ro` at most `K` times), `1 < ro`,
+    `stpmin()·ro < (ro - 1)·t*` (the bracket `[t/ro, t] ∋ t*` is wider than `stpmin()`), `c1 ≤ 1/2`, `0 ≤ c2`, `0 ≤ epsilon`,
+    `isfinite(t*)`: the search succeeds at a positive step with Wolfe or approximate Wolfe, the state being the evaluation there.
+    (`bracket` stops at the first step `≥ t*`; unless that step is accepted, the first secant step of the loop is exactly `t*`.) -/
+theorem cgdescent_succeeds_on_quadratic (cfg : Cfg α) (f0 g0 h t0 : α) (K : Nat) (hg : g0 < 0) (hh : 0 < h)
+    (he : 0 < cfg.macheps) (hK : K < cfg.maxIter) (hKt : tstar g0 h ≤ cfg.cgRo ^ K * initialStep cfg t0)
+    (hro : 1 < cfg.cgRo) (heps : 0 ≤ cfg.cgEpsilon) (hw : stpmin cfg.macheps * cfg.cgRo < (cfg.cgRo - 1) * tstar g0 h)
+    (hw0 : stpmin cfg.macheps < initialStep cfg t0) (hc1 : cfg.c1 ≤ 1 / 2) (hc2 : 0 ≤ cfg.c2)
+    (hfin : cfg.fin (tstar g0 h) = true) :
+    (quadGet .cgdescent cfg f0 g0 h t0).ok = true ∧ 0 < (quadGet .cgdescent cfg f0 g0 h t0).t ∧
+    (quadGet .cgdescent cfg f0 g0 h t0).ctx.cur = quadLine f0 g0 h (quadGet .cgdescent cfg f0 g0 h t0).t ∧
+    (CgWolfe cfg ⟨f0, g0, true⟩ (quadGet .cgdescent cfg f0 g0 h t0) ∨ CgApprox cfg ⟨f0, g0, true⟩ (quadGet .cgdescent cfg f0 g0 h t0)) := by
+  obtain ⟨t, ctx, e, hcur, hle, _⟩ := get_line_eq_doGet (quadLine f0 g0 h) (fun _ => rfl) .cgdescent cfg ⟨f0, g0, true⟩ t0
+    hg (by omega) he
+  have ht0 : 0 < t := lt_of_lt_of_le (initialStep_pos cfg t0 he) hle
+  have hkt : tstar g0 h ≤ cfg.cgRo ^ K * t :=
+    le_trans hKt (mul_le_mul_of_nonneg_left hle (pow_nonneg (by linarith) K))
+  have e3 : quadGet .cgdescent cfg f0 g0 h t0 = cgdescent cfg (fun _ => quadLine f0 g0 h) ⟨f0, g0, true⟩ t ctx := by
+    unfold quadGet; rw [e]; rfl
+  rw [e3]
+  exact cgdescent_quad_succeeds cfg f0 g0 h hg hh t ctx hcur ht0 K hK hkt hro heps hw (lt_of_lt_of_le hw0 hle) hc1 hc2 hfin
+
+/-- CG_DESCENT on a convex quadratic, overshooting first trial (a refinement of the theorem above): if `t1` is not tripled and
+    `t* ≤ t1` (non-negative slope at the first trial), `stpmin() < t1`, `c1 ≤ 1/2`, `0 ≤ c2`, `0 ≤ epsilon`, `isfinite(t*)`,
+    `max_iterations ≥ 1`: success, either at `t1` itself or — after ONE secant step — at `t*`, with Wolfe or approximate Wolfe. -/
+theorem cgdescent_quadratic_overshoot_exact_step (cfg : Cfg α) (f0 g0 h t0 : α) (hg : g0 < 0) (hh : 0 < h)
+    (hM : 0 < cfg.maxIter) (hng : cfg.eps1 ≤ |(quadLine f0 g0 h (initialStep cfg t0)).f - f0|)
+    (ht : tstar g0 h ≤ initialStep cfg t0) (hw : stpmin cfg.macheps < initialStep cfg t0)
+    (hc1 : cfg.c1 ≤ 1 / 2) (hc2 : 0 ≤ cfg.c2) (heps : 0 ≤ cfg.cgEpsilon) (hfin : cfg.fin (tstar g0 h) = true) :
+    (quadGet .cgdescent cfg f0 g0 h t0).ok = true ∧
+    ((quadGet .cgdescent cfg f0 g0 h t0).t = initialStep cfg t0 ∨ (quadGet .cgdescent cfg f0 g0 h t0).t = tstar g0 h) ∧
+    (quadGet .cgdescent cfg f0 g0 h t0).ctx.cur = quadLine f0 g0 h (quadGet .cgdescent cfg f0 g0 h t0).t ∧
+    (CgWolfe cfg ⟨f0, g0, true⟩ (quadGet .cgdescent cfg f0 g0 h t0) ∨ CgApprox cfg ⟨f0, g0, true⟩ (quadGet .cgdescent cfg f0 g0 h t0)) := by
+  have e := get_line_nogrow (quadLine f0 g0 h) (fun _ => rfl) .cgdescent cfg ⟨f0, g0, true⟩ t0 hg hM
+    (by rw [absv_eq_abs]; exact not_lt.mpr hng)
+  have e2 := cgdescent_quad_overshoot cfg f0 g0 h hg hh (initialStep cfg t0)
+    ⟨quadLine f0 g0 h (initialStep cfg t0), [initialStep cfg t0]⟩ rfl ht hc1 hc2 heps hfin hM hw
+  have e3 : quadGet .cgdescent cfg f0 g0 h t0 = cgdescent cfg (fun _ => quadLine f0 g0 h) ⟨f0, g0, true⟩ (initialStep cfg t0)
+      ⟨quadLine f0 g0 h (initialStep cfg t0), [initialStep cfg t0]⟩ := by
+    unfold quadGet; rw [e]; rfl
+  rw [e3]; exact e2
+
+/-- non-vacuity of the section over ℚ (`realCfg`: `macheps = 1/1000`, `safeguard = 1/10`, `tau2 = 1/10`, `tau3 = 1/2`, the real
+    interpolation formulas; `φ(t) = -t + 2t²`, i.e. `f0 = 0, g0 = -1, h = 4, t* = 1/4`, `t0 = 1 = t1`): the numeric hypotheses of
+    the five theorems hold (`k = 40`, `B = 4` for backtracking) … -/
+example : tstar (-1 : ℚ) 4 = 1 / 4 ∧ initialStep realCfg 1 = 1 ∧
+    (1 - realCfg.safeguard) ^ 40 * max (initialStep realCfg 1) (3 * 4) ≤ 2 * (1 - realCfg.c1) * tstar (-1 : ℚ) 4 ∧
+    4 * tstar (-1 : ℚ) 4 ≤ 4 ∧ realCfg.eps1 ≤ 4 * 4 * 4 / 4 ∧
+    realCfg.eps1 ≤ |(quadLine (0 : ℚ) (-1) 4 (initialStep realCfg 1)).f - 0| ∧
+    2 * (1 - realCfg.c1) * tstar (-1 : ℚ) 4 < initialStep realCfg 1 ∧
+    realCfg.safeguard * initialStep realCfg 1 ≤ tstar (-1 : ℚ) 4 ∧
+    tstar (-1 : ℚ) 4 ≤ (1 - realCfg.safeguard) * initialStep realCfg 1 ∧
+    min realCfg.tau2 realCfg.c2 * initialStep realCfg 1 ≤ tstar (-1 : ℚ) 4 ∧
+    tstar (-1 : ℚ) 4 ≤ (1 - realCfg.tau3) * initialStep realCfg 1 ∧
+    stpmin realCfg.macheps ≤ tstar (-1 : ℚ) 4 ∧ tstar (-1 : ℚ) 4 ≤ stpmax realCfg.macheps ∧
+    initialStep realCfg 1 < 2 * (stpmax realCfg.macheps - stpmin realCfg.macheps) * (66 / 100) := by
+  decide +kernel
+
+/-- … and the model runs end where the theorems say: backtracking after shrinking, the four others at `t* = 1/4` -/
+example : (quadGet .backtrack realCfg 0 (-1) 4 1).ok = true ∧ (quadGet .backtrack realCfg 0 (-1) 4 1).t = 1 / 4 ∧
+    (quadGet .lemarechal realCfg 0 (-1) 4 1).ok = true ∧ (quadGet .lemarechal realCfg 0 (-1) 4 1).t = 1 / 4 ∧
+    (quadGet .fletcher realCfg 0 (-1) 4 1).ok = true ∧ (quadGet .fletcher realCfg 0 (-1) 4 1).t = 1 / 4 ∧
+    (quadGet .morethuente realCfg 0 (-1) 4 1).ok = true ∧ (quadGet .morethuente realCfg 0 (-1) 4 1).t = 1 / 4 ∧
+    (quadGet .cgdescent realCfg 0 (-1) 4 1).ok = true ∧ (quadGet .cgdescent realCfg 0 (-1) 4 1).t = 1 / 4 := by
   decide +kernel
 
 /-! ### non-vacuity: the searches do succeed, fail and refuse on concrete inputs (model run over ℚ) -/
